@@ -189,8 +189,8 @@ Proof.
     set (s0 := if b then paint_buffered s else s);
     assert (H0 : ext s s0) by (subst s0; destruct b; auto with ext) end.
   assert (H1 : ext s (emit_hunk_header s0)) by auto with ext.
-  destruct l as [|ch r]; [auto 8 with ext|].
-  repeat (match goal with |- context [match ?x with _ => _ end] => destruct x end; auto 10 with ext).
+  destruct (line_kind l); auto 8 with ext.
+  destruct (state (emit_hunk_header s0)); auto 8 with ext.
 Qed.
 
 Lemma ext_h_tail i c l s : ext s (fst (h_tail_emit i c l s)).
@@ -389,18 +389,18 @@ Lemma h_hunk_unfold i c l s : in_hunk s = true ->
   fst (h_hunk i c l s) =
   emit (let s1 := hunk_pre c s in
         let body := expand_tabs (tab_width c) (tl l) in
-        match l with
-        | 45%N :: _ =>
+        match line_kind l with
+        | HLMinus =>
             let s' := match state s1 with SHunkPlus => paint_buffered s1 | _ => s1 end in
             set_state (set_minus_lines s' (minus_lines s' ++ [(i, body)])) SHunkMinus
-        | 43%N :: _ => set_state (set_plus_lines s1 (plus_lines s1 ++ [(i, body)])) SHunkPlus
-        | 32%N :: _ =>
+        | HLPlus => set_state (set_plus_lines s1 (plus_lines s1 ++ [(i, body)])) SHunkPlus
+        | HLZero =>
             let s' := paint_buffered s1 in
             set_state (set_buf s' (buf s' ++ [(i, ILine KZero body)])) SHunkZero
-        | [] =>
+        | HLEmpty =>
             let s' := paint_buffered s1 in
             set_state (set_buf s' (buf s' ++ [(i, ILine KZero [])])) SHunkZero
-        | _ =>
+        | HLOther =>
             let s' := paint_buffered s1 in
             set_state (set_buf s' (buf s' ++ [(i, ILine KOther (expand_tabs (tab_width c) l))])) SHunkZero
         end).
@@ -423,7 +423,7 @@ Proof.
   set (s1 := hunk_pre c s) in *.
   match goal with |- context [emit ?x] => destruct (emit_spec x) as (_ & Hb' & Hm' & Hp' & Hs') end.
   cbv zeta in *. rewrite Hb', Hm', Hp'. unfold in_hunk. rewrite Hs'. clear Hb' Hm' Hp' Hs'.
-  destruct (body_char_cases _ Hb) as [E|[E|[E|E]]]; subst ch; cbv iota beta.
+  destruct (body_char_cases _ Hb) as [E|[E|[E|E]]]; subst ch; cbn [line_kind]; cbv iota beta.
   - (* ' ' *) destruct (paint_buffered_spec s1) as (_ & _ & Hm & Hp & _).
     autorewrite with proj. rewrite Hm, Hp. cbn. repeat split; auto; lia.
   - (* '+' *) autorewrite with proj. rewrite app_length. cbn. repeat split; auto; lia.
@@ -539,7 +539,7 @@ Proof.
   destruct (hunk_pre_facts c s) as (Ha & Hs & Hq). specialize (Hq HI).
   set (s1 := hunk_pre c s) in *.
   rewrite app_assoc, <- Ha.
-  destruct (body_char_cases _ Hb) as [E|[E|[E|E]]]; subst ch; cbv iota beta zeta; cbn [tl body_item];
+  destruct (body_char_cases _ Hb) as [E|[E|[E|E]]]; subst ch; cbn [line_kind]; cbv iota beta zeta; cbn [tl body_item];
     after_emit.
   - (* ' ' *) rewrite all_items_set_state, all_items_app_buf_painted.
     autorewrite with proj. destruct (paint_buffered_spec s1) as (_ & _ & _ & Hp & _). auto.
